@@ -74,6 +74,11 @@ func c06NewUniverse(env vfEnvT) *c06Universe {
 	return u
 }
 
+func (u *c06Universe) IsRandom(idx int) bool {
+	lo := u.nEnum + len(c06Prefixes)*u.nPref
+	return idx >= lo && idx < lo+u.nRand
+}
+
 // At returns the idx-th string of the universe and whether it belongs to a sub-space that is only sampled when carried over.
 func (u *c06Universe) At(idx int) (string, bool) {
 	if idx < u.nEnum {
@@ -131,14 +136,15 @@ func c06Bulk(t testing.TB, env vfEnvT, workers int) *c06BulkResult {
 			loc := c06NewAcc()
 			for i := lo; i < hi; i++ {
 				s, _ := u.At(i)
+				if !env.Thorough() && u.IsRandom(i) && len(ctxs) == 7 && (wi-int(c06Hash(s)%7)+7)%7 >= 2 {
+					continue // quick tier: a random string meets 2 of the 7 configurations (the enumerated ones meet all)
+				}
 				kept, _ := cx.drive(loc, "so-rd", s, nil)
 				if kept {
 					flags[i] |= 1
 				}
-				if wi == 0 {
-					if v, _ := c06Verdict(s, baseA, nil); v == "off" || v == "scheme" {
-						flags[i] |= 2
-					}
+				if v, _ := c06Verdict(s, baseA, nil); v == "off" || v == "scheme" {
+					flags[i] |= 2
 				}
 			}
 			acc.merge(loc)
@@ -231,7 +237,9 @@ func c06Bulk(t testing.TB, env vfEnvT, workers int) *c06BulkResult {
 					for _, ch := range c06CheapChannels[1:] { // so-rd was phase 1
 						cx.drive(loc, ch, it.s, st)
 					}
-					if it.login {
+					// login channels: under 3 (quick) / all (thorough) configurations for the short strings, else as selected
+					d := (wi - int(it.h%7) + 7) % 7
+					if it.login && (!it.all || d < env.Pick(3, 7) || len(ctxs) < 7) {
 						for _, ch := range c06LoginChannels {
 							cx.drive(loc, ch, it.s, st)
 						}
@@ -328,14 +336,21 @@ func TestVerif_C06(t *testing.T) {
 	c06Fidelity(run)
 
 	// a run that did not see the validator keep anything, or no completed logins, has observed too little
-	for _, must := range []string{"kept_so-rd", "logins_completed", "login_starts_checked", "html_pages_parsed", "fidelity_ok", "wire_locations_compared"} {
+	musts := []string{"logins_completed", "login_starts_checked", "html_pages_parsed", "fidelity_ok", "wire_locations_compared"}
+	for _, ch := range append(append([]string{}, c06CheapChannels...), c06LoginChannels...) {
+		musts = append(musts, "ch_"+ch, "kept_"+ch) // every channel delivered strings and showed at least one of them kept
+	}
+	for _, ch := range []string{"so-rd", "so-xarr", "form-rd", "page-error", "xf-so", "page-403", "cb-state"} {
+		musts = append(musts, "kept_wire:"+ch)
+	}
+	for _, must := range musts {
 		if run.Counter(must) == 0 {
 			run.Inconclusive("counter " + must + " is zero")
 			fmt.Printf("INCONCLUSIVE property=C06 reason=nothing observed for %s\n", must)
 			t.Fail()
 		}
 	}
-	run.Finish(int64(run.Env.Pick(800000, 12000000)), run.Env.Pick(10000, 20000))
+	run.Finish(int64(run.Env.Pick(600000, 12000000)), run.Env.Pick(10000, 20000))
 }
 
 // c06RacePass: all channels under the race build for the 1-token strings, the prefixes and a sample of the known-bad list,
@@ -350,14 +365,14 @@ func c06RacePass(run *vfRun, w0 *vfWorld, interesting []string) {
 		}
 	}
 	for i, s := range c06KnownBad() {
-		if i%5 == int(run.Env.Seed%5) {
+		if i%run.Env.Pick(10, 3) == int(run.Env.Seed)%run.Env.Pick(10, 3) {
 			set = append(set, s)
 		}
 	}
 	sort.Strings(interesting)
 	wire := append([]string{}, set...)
 	for i, s := range interesting {
-		if i%run.Env.Pick(4, 1) == 0 {
+		if i%run.Env.Pick(8, 1) == 0 {
 			wire = append(wire, s)
 		}
 	}
@@ -366,7 +381,7 @@ func c06RacePass(run *vfRun, w0 *vfWorld, interesting []string) {
 	acc := c06NewAcc()
 	var wireN, wireDiff int64
 	for wi, wl := range c06WLs {
-		if !run.Env.Thorough() && (wi+int(run.Env.Seed))%7%3 != 0 { // quick: three of the seven configurations, rotating with the seed
+		if !run.Env.Thorough() && (wi+int(run.Env.Seed))%7%4 != 0 { // quick: two of the seven configurations, rotating with the seed
 			continue
 		}
 		cx, err := c06NewCtx(w0, wl)
